@@ -47,7 +47,13 @@ def run(tier):
         H.eol_scan(prog, rep)
         H.header_scan(prog, rep)
         H.header_split(prog, rep)
+        if H.window_reads(prog, rep) < 2:
+            rep.defer_broken("W11-inwindow: fewer than 2 reads of the window found in http.c")
         H.header_lookup(prog, rep)
+        # "exactly that body": the buffer handed to the callback is the one the decoder filled -- a resize on the way asks for at
+        # least one byte (realloc(p, 0) frees or invents a buffer: an empty body is delivered as no buffer; rule shared with C14)
+        from . import c14
+        c14.realloc_nonzero_rule(prog, rep, only_files=(H.UNIT,))
         if H.header_index(prog, rep) < 4:
             rep.defer_broken("W9-index: fewer than 4 subscripts of the parsed-header array found")
         H.chunk_framing(prog, rep)
